@@ -75,13 +75,19 @@ func emitRegDefs(out *Out) {
 	}
 }
 
-func regEncode(enc *text.Encoder, buf *bytes.Buffer, id uint64, raw string) string {
+func regEncode(enc *text.Encoder, buf *bytes.Buffer, id uint64, raw string, list bool) string {
 	return Safely(func() string {
 		seg := newSeg()
 		p := buildRaw(seg, raw)
 		must(seg.Message().SetRoot(p))
 		buf.Reset()
-		if err := enc.Encode(id, p.Struct()); err != nil {
+		var err error
+		if list {
+			err = enc.EncodeList(id, p.List())
+		} else {
+			err = enc.Encode(id, p.Struct())
+		}
+		if err != nil {
 			return "err"
 		}
 		return "ok:" + Hx(buf.Bytes())
@@ -105,14 +111,14 @@ func doRegHist(out *Out, script string) {
 				cur = regVersions[f[1]]
 				enc.UseRegistry(cur.reg)
 				nUse++
-			case "e":
+			case "e", "l": // Encode / EncodeList
 				id, err := strconv.ParseUint(f[1], 16, 64)
 				must(err)
-				used := regEncode(enc, &buf, id, f[2])
+				used := regEncode(enc, &buf, id, f[2], f[0] == "l")
 				var fb bytes.Buffer
 				fe := text.NewEncoder(&fb)
 				fe.UseRegistry(cur.reg)
-				fresh := regEncode(fe, &fb, id, f[2])
+				fresh := regEncode(fe, &fb, id, f[2], f[0] == "l")
 				obs = append(obs, "used="+used+",fresh="+fresh)
 				nEnc++
 			default:
@@ -157,6 +163,10 @@ func genRegHist(out *Out, r *Rand, tier string) {
 	doRegHist(out, fmt.Sprintf("u:V1;e:%x:%s;u:V2;e:%x:%s", uint64(regP), v, uint64(regP), v))
 	doRegHist(out, fmt.Sprintf("u:V1;e:%x:%s;u:V3;e:%x:%s", uint64(regP), v, uint64(regP), v))
 	doRegHist(out, fmt.Sprintf("u:V2;e:%x:%s;u:V1;e:%x:%s;u:V2;e:%x:%s", uint64(regP), v, uint64(regP), v, uint64(regP), v))
+	// EncodeList of one element type, then of another, on one encoder
+	lp, lq := "(C,"+v+","+v+")", "(C,(s,0900000000000000),(s,0a00000000000000))"
+	doRegHist(out, fmt.Sprintf("u:V1;l:%x:%s;l:%x:%s;l:%x:%s", uint64(regP), lp, uint64(regQ), lq, uint64(regP), lp))
+	doRegHist(out, fmt.Sprintf("u:V1;l:%x:%s;e:%x:%s;l:%x:%s", uint64(regQ), lq, uint64(regP), v, uint64(regP), lp))
 	n := 120
 	if tier == "thorough" {
 		n = 3000
@@ -171,6 +181,18 @@ func genRegHist(out *Out, r *Rand, tier string) {
 			id := uint64(regP)
 			if r.Intn(3) == 0 {
 				id = regQ
+			}
+			if r.Intn(3) == 0 { // EncodeList of 0..3 elements (all of one size: a composite list)
+				it := []string{"C"}
+				shape := id
+				if id == regP && r.Intn(3) == 0 {
+					shape = regQ // a P list whose elements have no pointer section
+				}
+				for n := r.Intn(4); n > 0; n-- {
+					it = append(it, genRegValue(r, shape)) // all elements of one size
+				}
+				ops = append(ops, fmt.Sprintf("l:%x:%s", id, sx(it...)))
+				continue
 			}
 			ops = append(ops, fmt.Sprintf("e:%x:%s", id, genRegValue(r, id)))
 		}
